@@ -197,6 +197,11 @@ func (reader *H264Reader) NextNAL() (*NAL, error) {
 	reader.nalBuffer = nil
 	nal.parseHeader()
 
+	// the last NAL of the stream is terminated by EOF instead of a start code
+	if !reader.includeSEI && nal.UnitType == NalUnitTypeSEI {
+		return nil, io.EOF
+	}
+
 	return nal, nil
 }
 
